@@ -469,3 +469,43 @@ func H_C11_MakeToken() {
 	}
 	v.Reach("end")
 }
+
+// H_C15_Replay: broadcast chat is replayed, in order and unaltered, to a
+// later joiner: member "o" sends k broadcast chat messages, then a new client
+// joins and handles its queued actions; the chathistory messages it is sent
+// are exactly the group's history, in order, with the true source, username
+// and value, and nothing else claims to be history.
+func H_C15_Replay() {
+	k := v.Choice("k", 4)
+	_, other, g, _ := zzWorld(1)
+	uo := "other"
+	vals := []string{"v0", "v1", "v2"}
+	for i := 0; i < k; i++ {
+		handleClientMessage(other, clientMessage{Type: "chat", Source: "o", Username: &uo, Value: vals[i]})
+	}
+	hist := g.GetChatHistory()
+	v.Assert(len(hist) == k, "every broadcast chat message of a member with 'message' enters the history")
+	j := zzNewClient("j")
+	um := "me"
+	handleClientMessage(j, clientMessage{Type: "join", Kind: "join", Group: "g", Username: &um, Password: "pw"})
+	v.Assert(j.group != nil, "the joiner is admitted")
+	for _, a := range zzQueued(j) {
+		handleAction(j, a)
+	}
+	n := 0
+	for _, m := range zzDrain(j) {
+		if m.Type != "chathistory" {
+			continue
+		}
+		v.Assert(n < k, "no more history than was said")
+		if n < k {
+			s, ok := m.Value.(string)
+			v.Assert(ok && s == vals[n], "the history is replayed in order with its values unaltered")
+			v.Assert(m.Source == "o" && m.Username != nil && *m.Username == "other", "with the true id and username of the member that sent each message")
+			v.Assert(m.Id == hist[n].Id && m.Kind == hist[n].Kind, "and its id and kind")
+		}
+		n++
+	}
+	v.Assert(n == k, "the whole history is replayed to a later joiner")
+	v.Reach("end")
+}
